@@ -87,6 +87,20 @@ inline RTA randProductiveTA(Rng& g, const Alpha& al, const std::vector<St>& st, 
 		a.rules.insert(j.rules.begin(), j.rules.end());
 		if (g.chance(1, 3)) a.fin.insert(j.fin.begin(), j.fin.end());
 	}
+	if (extraJunk > 0 && !inner.empty() && !leaves.empty() && n >= 3 && g.chance(1, 5))
+	{	// a final state with an EMPTY language above a productive sub-automaton that nothing useful reaches: a rule with
+		// one never-productive child (a state without rules) and productive children that only this rule uses
+		// (trimming that prunes in two passes; seeded change m90)
+		St dead = st[g.below(n)], top = st[g.below(n)], p = st[g.below(n)];
+		bool deadHasRules = false; for (auto& r : a.rules) if (r.par == dead) deadHasRules = true;
+		if (!deadHasRules && dead != p && dead != top)
+		{
+			RRule l; l.sym = g.pick(leaves); l.par = p; a.rules.insert(l);
+			RRule r; r.sym = g.pick(inner); int k = al.rank[r.sym]; int pos = static_cast<int>(g.below(k));
+			for (int jj = 0; jj < k; ++jj) r.ch.push_back(jj == pos ? dead : p);
+			r.par = top; a.rules.insert(r); a.fin.insert(top);
+		}
+	}
 	return a;
 }
 
